@@ -492,12 +492,13 @@ def w_stream(a):
 def w_e2e(a):
     enc, buf, mode = a
     real = kc.e2e_segment(buf, enc, mode)
-    if real == kc.UNAVAILABLE:
-        return kc.UNAVAILABLE
+    rest, mine = bytes(buf), []
     try:
-        mine = [(k, len(c)) for k, c in kc.segment(buf, enc, mode)]
+        while rest:
+            k, c, rest = kc.find_key(rest, enc, mode)
+            mine.append(k)
     except kc.FindFailure as f:
-        mine = kc.exc_kind(f.exc)
+        mine.append(kc.exc_kind(f.exc))
     return None if real == mine else (repr(real), repr(mine))
 
 
@@ -561,7 +562,9 @@ def check(ctx, search=False):
     # ---- tie 1a: every other spelling of the three codecs (Input passes locale.getpreferredencoding()) -----------------
     spell = kc.alias_spellings()
     if not ctx.thorough:
-        keep = {"ANSI_X3.4-1968", "646", "us", "U8", "cp65001", "utf_8", "UTF-8", "L1", "ISO-8859-1", "iso_8859_1", "ASCII", "LATIN1"}
+        keep = {"ANSI_X3.4-1968", "646", "us", "U8", "cp65001", "utf_8", "UTF-8", "L1", "ISO-8859-1", "iso_8859_1", "ASCII", "LATIN1",
+                "utf8", "UTF8", "latin1", "iso-8859-1"}     # + the canonical 'utf-8', 'ascii', 'latin-1' of the main runs
+        assert keep <= {x[1] for x in spell}, keep - {x[1] for x in spell}
         rest = [x for x in spell if x[1] not in keep]
         spell = [x for x in spell if x[1] in keep] + rest[ctx.rng.randrange(4)::4]
     work = [(fam, alias, ctx.thorough) for fam, alias in spell]
@@ -657,13 +660,9 @@ def check(ctx, search=False):
     for it, b in zip(streams, kc.par_map(w_stream, streams, procs, chunksize=200)):
         if b:
             report(ctx, b, ("segment", it[0], "curtsies", 0, hx(b"".join(it[1]))))
-    # ---- the transcribed find_key loop against the real closure inside Input._send ---------------------------
+    # ---- the transcribed find_key loop against the real closure inside Input._send (public unget_bytes + send) ----
     items = [(enc, b"".join(units), mode) for enc, units, kind in streams for mode in MODES]
     res = kc.par_map(w_e2e, items, procs, chunksize=100)
-    if any(d == kc.UNAVAILABLE for d in res):
-        ctx.note("Input no longer keeps pending bytes in a list attribute `unprocessed_bytes`: the direct drive of its find_key "
-                 "closure is skipped; the burst family below observes the same loop through the public interface only")
-        res = [None if d == kc.UNAVAILABLE else d for d in res]
     bad = [(it, d) for it, d in zip(items, res) if d]
     for it, d in bad[:3]:
         ctx.disagreements.append(("C03/e2e-find_key", ("segment", it[0], it[2], 0, hx(it[1])), d[0], d[1]))
